@@ -188,7 +188,7 @@ pub open spec fn all_topics_closed(m: Map<TopicName, TopicChannel>) -> bool { fo
 //@end
 
 // ---- server.rs ----
-//@fn server/src/server.rs :: - :: handle_stream [props=C07 C11 C17] [guards=ts]
+//@fn server/src/server.rs :: - :: handle_stream [props=C17 C07 C11] [guards=ts]
     requires
         stream.answer() is Nothing,
 //@hint before "let frame = result?;"
